@@ -189,7 +189,10 @@ def evaluate(case, sr, model_out):
     R, L = case["ranks"], case["len"]
     cid = {k: case[k] for k in ("ranks", "len", "dv", "script", "nodes", "ppn", "routing", "buffer_kb", "sim_seed", "policy")}
     if sr.verdict != "ok":
-        of.append({"what": f"real array run failed: {sr.verdict}", "signature": "array-run-failed " + sr.verdict.split(":")[0],
+        sig = "array-run-failed " + sr.verdict.split(":")[0]
+        if "signal 8" in sr.verdict:
+            sig = "array-owner-trap len<ranks" if 0 < L < R else "array-owner-trap"
+        of.append({"what": f"real array run failed: {sr.verdict}", "signature": sig,
                    "case": dict(cid, verdict=sr.verdict, stderr=sr.stderr[-400:], blocked=sr.blocked)})
         return of, cf
     exp = oracle_expected(case)
@@ -246,9 +249,9 @@ def run(tier, seed, model_ok=True):
     if not model_ok:
         res.corr_failures.append({"relation": "model driver available", "what": "Lean library does not build", "case": None})
     rng = random.Random(seed * 7919 + (13 if tier == "quick" else 1300))
-    per_size = 22 if tier == "quick" else 160
+    per_size = 44 if tier == "quick" else 5000
     plan = []
-    for R in range(1, 9):
+    for R in range(1, 9 if tier == "quick" else 13):
         fixed = [0, 1, R - 1, R, R + 1, 2 * R - 1, 2 * R + 3, 3 * R + 1]
         for k in range(per_size):
             L = fixed[k] if k < len(fixed) else rng.choice([rng.randrange(0, R + 1), rng.randrange(R, 41), rng.randrange(1, 41)])
